@@ -5,7 +5,8 @@ from common import Cvec, R, cfl, fl, max_rel_err
 
 LEAN_MODULES = ["PyomaVerif.Props.C02", "PyomaVerif.Props.C02C01", "PyomaVerif.Mutants.C02",
                 "PyomaVerif.Props.C02Matrix", "PyomaVerif.Props.C02Results", "PyomaVerif.Props.C02Driver",
-                "PyomaVerif.Mutants.C02Results"]
+                "PyomaVerif.Mutants.C02Results", "PyomaVerif.Props.C02State", "PyomaVerif.Mutants.C02State",
+                "PyomaVerif.Props.C02Accepted"]
 THEOREMS = [
     "PV.C02.C02_merge",
     "PV.C02.tail_merge",
@@ -58,13 +59,42 @@ THEOREMS = [
     "PV.Merge.algGroups_nodup",
     "PV.Merge.mapE_ok_iff",
     "PV.Merge.pvar_nonneg",
+    # the object across calls (__result), MSF on matrices, integer reference positions (Model/MergeState.lean)
+    "PV.C02.C02_results_fresh",
+    "PV.C02.C02_results_first",
+    "PV.C02.C02_results_idempotent",
+    "PV.C02.mergeResultsSt_ok",
+    "PV.C02.mergeResultsSt_error",
+    "PV.C02.mergeResults_keys_nodup",
+    "PV.C02.algGroups_keys_nodup",
+    "PV.C02.resultGetter_none",
+    "PV.C02.dictSet_lookup_self",
+    "PV.C02.dictSet_lookup_other",
+    "PV.C02.msfArr_vec",
+    "PV.C02.msfArr_mat",
+    "PV.C02.msfArr_error_iff",
+    "PV.C02.C02_msf_matrix",
+    "PV.C02.mergeModeShapesI_ofNat",
+    "PV.C02.mergeModeShapesI_negative",
+    "PV.C02.normPos_neg",
+    "PV.C02.flattenNamesI_ofNat",
+    "PV.C02.C02_order_negative_fails",
+    "PV.C02.C02_results_of_accepted",
+    "PV.C02.C02_fresh_ne_of_accepted",
+    "PV.Mutants.C02.cached_returns_stale",
+    "PV.Mutants.C02.first_denominator_wrong",
+    "PV.Mutants.C02.comprehension_differs",
 ]
 RULE = (
     "correspondence: gen.MSF, gen.merge_mode_shapes (complex inputs as exact Gaussian rationals, 1e-10), the multi-setup "
     "branch of gen.flatten_sns_names (exact), the exceptions of gen.merge_mode_shapes on malformed layouts (same exception "
     "class) and the REAL MultiSetup_PoSER.merge_results (stub algorithms carrying prescribed Fn/Xi/Phi, 2..4 setups, 1..3 "
     "groups, also duplicate names / ragged Fn / wrong ref_ind: Phi 1e-9, Fn/Xi 1e-12, Fn_cov/Xi_cov 1e-9 + 50 eps, dictionary "
-    "order and exception class exact) vs the Lean models mergeModeShapes / mergeResults; oracle: the "
+    "order and exception class exact) vs the Lean models mergeModeShapes / mergeResults; 2..4 successive merge_results() calls "
+    "on ONE object (new results / re-assigned names / a raising group / plain repeat between them: returned dictionary, exception "
+    "and the `result` property after every call) vs poserSession; gen.MSF on (n, m) matrices and mixed 1-D/2-D arguments vs msfArr; "
+    "reference positions written as negative / out-of-bounds integers in gen.merge_mode_shapes and gen.flatten_sns_names vs "
+    "mergeModeShapesI / flattenNamesI (exact, exception class exact); oracle: the "
     "property's domain verbatim (2..5 setups, 1..4 references anywhere and in any order, 0..5 roving, real/complex G, 1..8 "
     "modes, scale factors of either sign with magnitude in [0.05, 20]): merged vs s0*G[order] at 1e-9; names vs row order; "
     "mean / population std. distinct = (n_setups, n_ref, roving counts, complex?, ref positions)"
@@ -199,6 +229,13 @@ def correspondence(ctx):
         _corr_merge_results(ctx, malformed=True)
     for k in range(ctx.n(30, 400)):
         _corr_merge_malformed(ctx)
+    # --- the parts added with Model/MergeState.lean: the object's __result across calls, MSF on matrices, integer positions
+    for k in range(ctx.n(16, 300)):
+        _corr_session(ctx)
+    for k in range(ctx.n(60, 1500)):
+        _corr_msf_matrix(ctx)
+    for k in range(ctx.n(40, 800)):
+        _corr_negative(ctx)
 
 
 def _exc_name(fn):
@@ -272,6 +309,273 @@ def _corr_merge_malformed(ctx):
         ok = ierr == merr
     ctx.corr("gen.merge_mode_shapes[exceptions]", bool(ok), {"phis": [p.tolist() for p in phis], "refs": refs, "kind": kind}, merr, ierr, ("mal", kind, ierr))
     ctx.count(f"merge_malformed_{ierr or 'ok'}")
+
+
+def _cmp_result_dict(m_list, impl_items):
+    """model dictionary ([[name, {..}], ..]) against a snapshot of the real one ([(name, {field: array}), ..]): key order
+    exact, Phi 1e-9, Fn/Xi 1e-12, Fn_cov/Xi_cov 1e-9 + 50 eps"""
+    if [e[0] for e in m_list] != [k_ for k_, _v in impl_items]:
+        return False
+    eps = np.finfo(float).eps
+    for (name, res), (_n, real) in zip(m_list, impl_items):
+        rp = np.asarray(real["Phi"])
+        if rp.size != sum(len(r_) for r_ in res["Phi"]):
+            return False
+        Phi = np.array([[cfl(v) for v in row] for row in res["Phi"]]).reshape(rp.shape)
+        if max_rel_err(Phi, rp) > 1e-9:
+            return False
+        for key, tol_abs in (("Fn", 0.0), ("Xi", 0.0), ("Fn_cov", 50 * eps), ("Xi_cov", 50 * eps)):
+            a = np.array([fl(v) for v in res[key]])
+            b = np.asarray(real[key], dtype=float)
+            rtol = 1e-12 if tol_abs == 0.0 else 1e-9
+            if a.shape != b.shape or not bool(np.all(np.abs(a - b) <= tol_abs + rtol * np.abs(b))):
+                return False
+    return True
+
+
+def _snapshot(d):
+    """a merged-results dictionary as plain copies (the real dictionary is re-used and mutated by the next call)"""
+    if d is None:
+        return None
+    return [(k_, {f: np.array(getattr(v, f), copy=True) for f in ("Phi", "Fn", "Fn_cov", "Xi", "Xi_cov")}) for k_, v in d.items()]
+
+
+def _corr_session(ctx):
+    """SEVERAL merge_results() calls on ONE real MultiSetup_PoSER object against Merge.poserSession: between the calls the
+    algorithms get new results (another extraction), self.names is re-assigned (keys of an earlier call stay), one group is
+    made to raise (the groups before it are already re-assigned), the call is simply repeated; after every call the returned
+    dictionary (or the exception) AND the `result` property (ValueError while nothing was ever merged) are compared."""
+    from pyoma2.algorithms import FDD
+    from pyoma2.algorithms.data.result import EFDDResult
+    from pyoma2.setup import MultiSetup_PoSER, SingleSetup
+
+    rng = ctx.rng
+    g = ctx.nprng()
+    while True:
+        rows, refs, _nglob, nref = _layout(ctx)
+        if len(rows) <= 3:
+            break
+    nset = len(rows)
+    ngroups = rng.randint(1, 3)
+    nm = rng.randint(1, 3)
+    names0 = [f"grp{gi}" for gi in range(ngroups)]
+    ref_ind0 = [list(r) for r in refs]
+
+    def fresh_data():
+        data = [[None] * ngroups for _ in range(nset)]
+        for gi in range(ngroups):
+            cplx = rng.random() < 0.3
+            for i in range(nset):
+                phi = g.standard_normal((len(rows[i]), nm)) + (1j * g.standard_normal((len(rows[i]), nm)) if cplx else 0)
+                data[i][gi] = (g.uniform(1, 20, size=nm), g.uniform(0.005, 0.05, size=nm), phi)
+        return data
+
+    def guard(data):
+        for i in range(nset):
+            for gi in range(ngroups):
+                p = np.asarray(data[i][gi][2])
+                r = ref_ind0[i]
+                if not np.all(np.abs((p[r, :] * p[r, :]).sum(axis=0)) > 1e-3 * (np.abs(p[r, :]) ** 2).sum(axis=0)):
+                    return False
+        return True
+
+    setups, algs_all = [], []
+    for i in range(nset):
+        ss = SingleSetup(np.zeros((32, max(len(rows[i]), 1))), fs=10.0)
+        algs = [FDD(name=f"a{i}_{ii}", nxseg=16) for ii in range(ngroups)]
+        ss.add_algorithms(*algs)
+        setups.append(ss)
+        algs_all.append(algs)
+
+    def store(data):
+        for i in range(nset):
+            for gi in range(ngroups):
+                fn_, xi_, phi_ = data[i][gi]
+                algs_all[i][gi].result = EFDDResult(Fn=np.array(fn_), Xi=np.array(xi_), Phi=np.array(phi_))
+
+    data = fresh_data()
+    if not guard(data):
+        ctx.skipped += 1
+        return
+    store(data)
+    ms = MultiSetup_PoSER(ref_ind=[list(r) for r in ref_ind0], single_setups=setups, names=list(names0))
+    nsteps = rng.randint(2, 4)
+    kinds, calls, real_obs = [], [], []
+    for step in range(nsteps):
+        kind = rng.choice(["ok", "short-names", "bad-group"] if step == 0 else ["ok", "ok", "same", "rename", "rename", "short-names", "bad-group", "few-reflists"])
+        names, ref_ind = list(names0), [list(r) for r in ref_ind0]
+        if kind != "same":
+            data = fresh_data()
+            if not guard(data):
+                ctx.skipped += 1
+                return
+        if kind == "rename":
+            names = [n_ if rng.random() < 0.5 else f"new{step}_{gi}" for gi, n_ in enumerate(names0)]
+            if rng.random() < 0.3:
+                names = names[::-1]
+        elif kind == "short-names":
+            names = names0[: rng.randint(0, ngroups - 1)]
+        elif kind == "bad-group":
+            gi = rng.randrange(ngroups)
+            i = rng.randrange(nset)
+            fn_, xi_, phi_ = data[i][gi]
+            data[i][gi] = (np.append(fn_, 1.0), xi_, phi_) if rng.random() < 0.5 else (fn_, xi_, np.hstack([phi_, phi_[:, :1]]))
+        elif kind == "few-reflists":
+            ref_ind = ref_ind0[: rng.randint(1, nset - 1)]
+        store(data)
+        ms.names = list(names)
+        ms.ref_ind = [list(r) for r in ref_ind]
+        ret, rerr = _exc_name(lambda: ms.merge_results())
+        same_object = rerr is not None or ret is getattr(ms, "_MultiSetup_PoSER__result", None)
+        ret = _snapshot(ret)
+        got, gerr = _exc_name(lambda: ms.result)
+        got = _snapshot(got)
+        real_obs.append((ret, rerr, got, gerr, same_object))
+        kinds.append(kind)
+        calls.append({"names": names, "ref_ind": ref_ind,
+                      "setups": [[{"Fn": [R(v) for v in a[0]], "Xi": [R(v) for v in a[1]], "Phi": [Cvec(row) for row in np.asarray(a[2])]} for a in algs] for algs in data]})
+    m = ctx.model("poser_session", calls=calls)
+    ok = len(m) == len(real_obs)
+    if ok:
+        for mo, (ret, rerr, got, gerr, same_object) in zip(m, real_obs):
+            if rerr is not None or "error" in mo["ret"]:
+                ok = ok and mo["ret"].get("error") == rerr
+            elif mo["ret"]["ok"] is None or ret is None:
+                ok = ok and mo["ret"]["ok"] is None and ret is None
+            else:
+                ok = ok and _cmp_result_dict(mo["ret"]["ok"], ret)
+            if gerr is not None or "error" in mo["getter"]:
+                ok = ok and mo["getter"].get("error") == gerr
+            else:
+                ok = ok and _cmp_result_dict(mo["getter"]["ok"], got)
+            ok = ok and same_object  # `return self.__result`: the attribute itself (the model returns the state)
+    inp = {"kinds": kinds, "rows": rows, "ref_ind": ref_ind0, "names": names0, "n_modes": nm}
+    ctx.corr("MultiSetup_PoSER.merge_results[twice]", bool(ok), inp,
+             [{"ret": ("error", mo["ret"]["error"]) if "error" in mo["ret"] else [e[0] for e in (mo["ret"]["ok"] or [])],
+               "getter": mo["getter"].get("error") or [e[0] for e in mo["getter"]["ok"]]} for mo in m],
+             [{"ret": ("error", rerr) if rerr else [k_ for k_, _ in (ret or [])], "getter": gerr or [k_ for k_, _ in got]} for (ret, rerr, got, gerr, _s) in real_obs],
+             ("session", tuple(kinds), nset, ngroups))
+    for kd, (ret, rerr, got, gerr, _s) in zip(kinds, real_obs):
+        ctx.count(f"session_{kd}_{rerr or 'ok'}")
+    ctx.count("session_getter_ValueError" if any(o[3] for o in real_obs) else "session_getter_always_set")
+    stale = any(got is not None and ret is not None and len(got) > len(set(c["names"])) for (ret, rerr, got, gerr, _s), c in zip(real_obs, calls))
+    if stale:
+        ctx.count("session_stale_keys_kept")
+
+
+def _nd(a):
+    a = np.asarray(a)
+    if a.ndim == 1:
+        return {"v": Cvec(a)}
+    return {"ncols": int(a.shape[1]), "rows": [Cvec(row) for row in a]}
+
+
+def _corr_msf_matrix(ctx):
+    """gen.MSF on its documented (n_locations, n_modes) arguments and on mixed 1-D / 2-D ones, against Merge.msfArr:
+    one factor per column (numerator and denominator from the same column), shape Exception"""
+    from pyoma2.functions import gen
+
+    rng = ctx.rng
+    g = ctx.nprng()
+    n = rng.randint(1, 6)
+    m_ = rng.randint(0, 4)
+    cplx = rng.random() < 0.4
+
+    def arr(shape):
+        a = g.standard_normal(shape)
+        return a + 1j * g.standard_normal(shape) if cplx else a
+
+    kind = rng.choice(["mat", "mat", "mat", "vec-vec", "vec-mat", "mat-vec", "rows-differ", "cols-differ", "vec-mat-cols"])
+    if kind == "mat":
+        x, y = arr((n, m_)), arr((n, m_))
+    elif kind == "vec-vec":
+        x, y = arr(n), arr(n)
+    elif kind == "vec-mat":
+        x, y = arr(n), arr((n, 1))
+    elif kind == "mat-vec":
+        x, y = arr((n, 1)), arr(n)
+    elif kind == "rows-differ":
+        x, y = arr((n, m_)), arr((n + rng.choice([-1, 1]) if n > 1 else n + 1, m_))
+    elif kind == "cols-differ":
+        x, y = arr((n, m_)), arr((n, m_ + 1))
+    else:
+        x, y = arr(n), arr((n, rng.choice([0, 2, 3])))
+    # columns of very different magnitude: a factor taken from another column's denominator would be far off
+    if np.asarray(x).ndim == 2 and x.shape[1] > 0:
+        x = x * np.exp(g.uniform(np.log(0.05), np.log(20), size=(1, x.shape[1])))
+    x2 = x[:, None] if x.ndim == 1 else x
+    if x2.size and not np.all(np.abs((x2 * x2).sum(axis=0)) > 1e-3 * (np.abs(x2) ** 2).sum(axis=0)):
+        ctx.skipped += 1
+        return
+    impl, ierr = _exc_name(lambda: gen.MSF(x.copy(), y.copy()))
+    m, merr = _model_or_error(ctx, "msf_arr", phi1=_nd(x), phi2=_nd(y))
+    if ierr is not None or merr is not None:
+        ok = ierr == merr
+    else:
+        impl = np.asarray(impl)
+        mv = np.array([fl(v[0]) for v in m])
+        ok = impl.shape == (len(m),) and not np.iscomplexobj(impl) and all(fl(v[1]) == 0.0 for v in m) and bool(
+            np.all(np.abs(mv - impl) <= 1e-10 * np.maximum(1.0, np.abs(impl))))
+    ctx.corr("gen.MSF[matrix]", bool(ok), {"phi1": [[str(v) for v in r] for r in np.atleast_2d(x).tolist()], "phi2": [[str(v) for v in r] for r in np.atleast_2d(y).tolist()],
+                                         "shape1": list(x.shape), "shape2": list(y.shape)}, merr if merr else m, ierr if ierr else np.asarray(impl).tolist(),
+             ("msfm", kind, ierr, min(m_, 2), cplx))
+    ctx.count(f"msf_matrix_{kind}_{ierr or 'ok'}")
+
+
+def _corr_negative(ctx):
+    """reference positions written as negative Python integers (counting from the end) or out of bounds on either side:
+    gen.merge_mode_shapes (numpy: normalised, IndexError outside -n..n-1) against Merge.mergeModeShapesI and the multi-setup
+    branch of gen.flatten_sns_names (`j not in ref_ind[i]`: compared as written) against Merge.flattenNamesI"""
+    from pyoma2.functions import gen
+
+    rng = ctx.rng
+    g = ctx.nprng()
+    rows, refs, _nglob, nref = _layout(ctx)
+    nm = rng.randint(1, 3)
+    phis = [g.standard_normal((len(c), nm)) for c in rows]
+    nat_refs = [list(r) for r in refs]
+    kind = rng.choice(["negative", "negative", "negative", "below", "above", "mixed-dup", "few-reflists", "plain"])
+    irefs = [list(r) for r in refs]
+    if kind != "plain":
+        for i, r in enumerate(irefs):
+            for q in range(len(r)):
+                if rng.random() < 0.6:
+                    r[q] = r[q] - len(rows[i])
+    i = rng.randrange(len(rows))
+    if kind == "below":
+        irefs[i][rng.randrange(len(irefs[i]))] = -len(rows[i]) - 1 - rng.randint(0, 2)
+    elif kind == "above":
+        irefs[i][rng.randrange(len(irefs[i]))] = len(rows[i]) + rng.randint(0, 2)
+    elif kind == "mixed-dup":
+        # the same channel listed twice, once from the front and once from the end
+        p = nat_refs[i][0]
+        irefs[i] = irefs[i] + [p - len(rows[i]) if irefs[i][0] >= 0 else p]
+    elif kind == "few-reflists":
+        del irefs[rng.randint(1, len(irefs) - 1):]
+    ok_guard = all(
+        np.all(np.abs((p[r, :] * p[r, :]).sum(axis=0)) > 1e-3 * (np.abs(p[r, :]) ** 2).sum(axis=0)) for p, r in zip(phis, nat_refs)
+    )
+    if not ok_guard:
+        ctx.skipped += 1
+        return
+    impl, ierr = _exc_name(lambda: gen.merge_mode_shapes(MSarr_list=[p.copy() for p in phis], reflist=[list(r) for r in irefs]))
+    m, merr = _model_or_error(ctx, "merge_mode_shapes_int", phis=[[Cvec(row) for row in p] for p in phis], refs=irefs)
+    if ierr is None and merr is None:
+        ok = np.asarray(impl).size == sum(len(r_) for r_ in m) and max_rel_err(np.array([[cfl(v) for v in row] for row in m]).reshape(impl.shape), impl) <= 1e-9
+    else:
+        ok = ierr == merr
+    ctx.corr("gen.merge_mode_shapes[negative]", bool(ok), {"phis": [p.tolist() for p in phis], "refs": irefs, "kind": kind}, merr, ierr, ("neg", kind, ierr, len(rows), nref))
+    ctx.count(f"merge_negative_{kind}_{ierr or 'ok'}")
+    names = [[f"s{i_}c{j}" for j in range(len(c))] for i_, c in enumerate(rows)]
+    if kind == "few-reflists" and rng.random() < 0.5:
+        for i_ in range(len(irefs), len(names)):
+            names[i_] = []  # a setup without names never reads its (missing) reference list
+    impl_n, nerr = _exc_name(lambda: gen.flatten_sns_names([list(n_) for n_ in names], ref_ind=[list(r) for r in irefs]))
+    mn, mnerr = _model_or_error(ctx, "flatten_names_int", names=names, refs=irefs)
+    okn = (nerr == mnerr) if (nerr is not None or mnerr is not None) else list(impl_n) == list(mn)
+    ctx.corr("gen.flatten_sns_names[negative]", bool(okn), {"names": names, "refs": irefs, "kind": kind}, mnerr if mnerr else mn, nerr if nerr else list(impl_n), ("negn", kind, nerr, len(rows), nref))
+    if ierr is None and nerr is None and len(impl_n) != np.asarray(impl).shape[0]:
+        ctx.count("negative_positions_names_vs_rows_differ")
 
 
 def _real_merge_results(ctx, names, ref_ind, data):
